@@ -30,9 +30,9 @@ FS == <<102, 115>>
 x == EVar(NX)
 y == EVar(NY)
 AllToks == {"D", "A", "R", "Dy", "Ry", "{", "I{", "F{", "L{", "W{", "}", "C", "C1", "S", "Q", "Dx", "Fr", "G", "Cg",
-            "T{", "K", "B", "Sw", "So", "Lx{", "Ox{"}
+            "T{", "K", "B", "Sw", "So", "Lx{", "Ox{", "E{", "Sr"}
 SmallToks == {"D", "A", "R", "{", "F{", "L{", "W{", "}", "C", "Q"}
-Openers == {"{", "I{", "F{", "L{", "W{", "T{", "Lx{", "Ox{"}
+Openers == {"{", "I{", "F{", "L{", "W{", "T{", "Lx{", "Ox{", "E{"}
 TK == <<116, 107>>
 TICK == <<116, 105, 99, 107>>
 WN(i) == <<119, 48 + (i % 10), 48 + (i \div 10)>>
@@ -55,6 +55,9 @@ Simple(t, i) ==
       [] t = "Sw" -> SAssign(EPat(<<x, y>>), EList(<<EBin("+", y, EInt(1)), EBin("+", x, EInt(2))>>))
       [] t = "So" -> SAssign(EObj(<<Pair(EStr(<<97>>), x), Pair(EStr(<<98>>), y)>>),
                              EObj(<<Pair(EStr(<<97>>), EBin("+", y, EInt(3))), Pair(EStr(<<98>>), EBin("+", x, EInt(4)))>>))
+      \* the rest of an object pattern is assigned like the other targets (no new binding)
+      [] t = "Sr" -> SAssign(EObj(<<Pair(EStr(<<97>>), x), PCollect(y)>>),
+                             EObj(<<Pair(EStr(<<97>>), EBin("+", x, EInt(5))), Pair(EStr(<<98>>), EInt(6))>>))
       [] t = "Dx" -> SDecl(x, EBin("+", x, EInt(1000)))                  \* the right-hand side reads the outer x
       [] t = "Fr" -> SAssign(EVar(NF), EFunc(<<>>, FALSE, <<SPrint(EInt(777)), SReturn(EFunc(<<>>, FALSE, <<SPrint(EInt(778))>>))>>))
       [] t = "G"  -> SDecl(EVar(<<103, 103>>), EVar(NF))                  \* gg := f
@@ -65,6 +68,7 @@ Compound(t, i, body) ==        \* a sequence of statements
       [] t = "I{" -> <<SIf(EBool(TRUE), body)>>
       \* `if tick() {`: true on every other evaluation (first, third, ...)
       [] t = "T{" -> <<SIf(ECall(EVar(TICK), <<>>), body)>>
+      [] t = "E{" -> <<SIfOf(<<Branch(EBool(FALSE), <<SDecl(x, EInt(-1))>>)>>, Else(body))>>
       [] t = "F{" -> <<SFn(NF, <<>>, FALSE, body \o <<SReturn(EFunc(<<>>, FALSE, ClosureBody))>>)>>
       [] t = "L{" -> <<SFor(EVar(N_us), EList(<<EInt(1), EInt(2)>>), body)>>
       \* the loop variable is x itself: every iteration has its own x (closures made in the body keep theirs)
@@ -130,6 +134,9 @@ LoopVar ==
               <<"D", lp, "Q", "K", "}">>, <<lp, "Q", "D", "}">>, <<"D", lp, "F{", "R", "}", "C1", "C", "}", "C">>,
               <<lp, "I{", "Q", "}", "A", "Q", "}">>, <<lp, lp, "Q", "}", "Q", "}">> } : lp \in {"Lx{", "Ox{"} }
 \* one assignment to several names that live in different scopes
+RestAssign ==
+    { <<"D", "Dy">> \o ctx \o <<dd, "Sr", "R", "Ry">> \o Close(ctx) \o AfterCtx(ctx) \o <<"R", "Ry">> :
+        ctx \in Contexts \cup {<<"T{">>, <<"E{">>}, dd \in {"D", "Dy", "R"} }
 ShadowAssign ==
     { <<"D", "Dy">> \o ctx \o <<dd, sw, "R", "Ry">> \o Close(ctx) \o AfterCtx(ctx) \o <<"R", "Ry">> :
         ctx \in Contexts \cup {<<"T{">>}, dd \in {"D", "Dy"}, sw \in {"Sw", "So"} }
@@ -153,6 +160,8 @@ C04Params ==
     \cup { <<"selfref", s>> : s \in SelfRef }
     \cup { <<"shadowassign", s>> : s \in ShadowAssign }
     \cup { <<"late", s>> : s \in Late }
+    \cup { <<"restassign", s>> : s \in RestAssign }
+    \cup { <<"vanish", pre \o <<"E{", dd, "}", "R", dd2, "R">>>> : pre \in {<<>>, <<"D">>}, dd \in {"D", "A", "Dy"}, dd2 \in {"D", "Dy", "A"} }
     \cup { <<"loopvar", s>> : s \in LoopVar }
     \cup { <<"random", RandomSeqs[i].s>> : i \in {j \in 1 .. Len(RandomSeqs) : WellFormed(RandomSeqs[j].s)} }
 
